@@ -1,11 +1,13 @@
 (* Extract_trees.v — extraction of the tree-based exact-algorithm models (group "trees": acceptance replay of
-   mcb_sva_fvs_trees / mcb_sva_iso_trees runs and the deterministic resolution).  ExtrOcamlBasic only; no Extract
+   mcb_sva_fvs_trees / mcb_sva_iso_trees runs, the deterministic resolution, and the run AS EXECUTED under the recovered
+   std::sort arrangement: TreesFloatModel.mcb_sva_trees_go_Z / mcb_sva_trees_order at Z).  ExtrOcamlBasic only; no Extract
    directive of our own. *)
 From Coq Require Extraction ExtrOcamlBasic.
 From Coq Require Import ZArith.
-From Parmcb Require Import TreesModel.
+From Parmcb Require Import TreesModel TreesFloatModel.
 Extraction Language OCaml.
 Set Extraction Optimize.
 Extraction "model.ml"
   Z.add Z.mul Z.opp Z.div_eucl Z.of_nat Z.to_nat Z.compare Z.eqb
-  simpleb mcb_sva_trees_replay_Z mcb_sva_trees_accept_Z mcb_sva_trees_first_Z trees_phase_ok.
+  simpleb mcb_sva_trees_replay_Z mcb_sva_trees_accept_Z mcb_sva_trees_first_Z trees_phase_ok
+  mcb_sva_trees_go_Z mcb_sva_trees_order.
